@@ -46,11 +46,20 @@ def decode_sets(line):
     return outs
 
 
-def violates(o):
+def violates(o, key=None, name=""):
     """the property on one final outcome: a Pending last poll with credit available or the
-    stream closed and no wake-up delivered = lost wake-up"""
+    stream closed and no wake-up delivered = lost wake-up; final credit different from
+    initial + granted - units taken = credit not conserved"""
     n = o[0]
     results, credit, fin, wakes = o[1:1 + n], o[1 + n], o[2 + n], o[3 + n]
+    if key is not None:
+        granted = key[2] if "K" in name.split("|") else 0
+        taken = sum(1 for r in results if r == 0)
+        if taken > key[0] + granted:
+            return "the writer obtained %d permissions but only %d units of credit ever existed" % (taken, key[0] + granted)
+        if credit != key[0] + granted - taken:
+            return ("credit not conserved: initial %d + granted %d - taken %d = %d, final credit %d"
+                    % (key[0], granted, taken, key[0] + granted - taken, credit))
     if results and results[-1] == 2 and (credit > 0 or fin == 1) and wakes == 0:
         return "lost wake-up: the writer's last poll returned Pending, credit=%d closed=%d, and no wake-up was delivered" % (credit, fin)
     return None
@@ -89,7 +98,7 @@ def run(tier, seed, replay=None):
                 continue
             disagreements += 1
             extra = sorted(impl - mset)
-            viol = [(o, violates(o)) for o in extra if violates(o)]
+            viol = [(o, violates(o, k, name)) for o in extra if violates(o, k, name)]
             payload = {"property": PROP, "program": name, "credit": k[0], "polls": k[1], "ack": k[2], "close": k[3],
                        "outcomes_only_in_implementation": [list(o) for o in extra],
                        "outcomes_only_in_model": [list(o) for o in sorted(mset - impl)],
